@@ -1,6 +1,8 @@
 #!/usr/bin/env python3-vt
 """developer tool: explore one harness with engine M and print a summary"""
-import sys, time, json
+import sys, time, json, faulthandler, resource, os
+resource.setrlimit(resource.RLIMIT_AS, (12<<30, 12<<30))
+faulthandler.dump_traceback_later(int(os.environ.get('DBG_TIMEOUT','300')), exit=True)
 sys.path.insert(0, '/verif')
 from mirsym import build, driver
 P = build.load_program()
@@ -11,5 +13,8 @@ for entry in sys.argv[1:]:
     print('   checked', dict(r.checked), 'covered', sorted(r.covered))
     for m, c in r.unsupported.most_common(8): print('   UNSUPPORTED x%d: %s' % (c, m))
     for m, c in r.panics.most_common(8): print('   PANIC x%d: %s' % (c, m))
-    for v in r.violations[:6]: print('   VIOLATION', v['check'], v.get('msg',''), [(i['tag'], i['value']) for i in (v['inputs'] or [])][:12])
+    import collections
+    print('   violations by obligation:', dict(collections.Counter(str(v['check']) for v in r.violations)), 'known:', dict(collections.Counter(str(v['kf']) for v in r.known_hits)))
+    seen=set()
+    for v in [v for v in r.violations if not (v['check'] in seen or seen.add(v['check']))][:6]: print('   VIOLATION', v['check'], v.get('msg',''), [(i['tag'], i['value']) for i in (v['inputs'] or [])][:12])
     for v in r.known_hits[:4]: print('   KNOWN', v['kf'], v['check'], [(i['tag'], i['value']) for i in v['inputs']][:12])
